@@ -15,6 +15,7 @@
     * `C04_absent_rejected`     deleting an absent key: rejected with `KeyDoesNotExist`, the state is unchanged;
     * `C04_can_put_again`       after the release a put of `k` is not refused as existing, admission alone decides.
 -/
+import CachedProofs.LayerB.Theorems
 import CachedProofs.Lemmas.TtlInv
 import CachedProofs.Properties.C07
 
